@@ -1,0 +1,49 @@
+//! Verification hooks for `pruner` (compiled only with `--cfg eigerco_lumina_verif`).
+
+use tendermint::Time;
+
+use super::Cache;
+use crate::store::{BlockRanges, Store};
+
+/// Opaque handle around the pruner's private block-info `Cache`.
+#[derive(Default)]
+pub struct WindowSearchCache(Cache);
+
+impl WindowSearchCache {
+    /// A fresh, empty cache.
+    pub fn new() -> Self {
+        Self::default()
+    }
+}
+
+/// `pruner::find_height_after_window` (fast path, then binary search). Errors are stringified
+/// because `PrunerError` is crate-private.
+pub async fn find_height_after_window<S>(
+    store: &S,
+    stored_headers: &BlockRanges,
+    cutoff: &Time,
+    prev_after_window: Option<u64>,
+    cache: &mut WindowSearchCache,
+) -> Result<Option<u64>, String>
+where
+    S: Store,
+{
+    super::find_height_after_window(store, stored_headers, cutoff, prev_after_window, &mut cache.0)
+        .await
+        .map_err(|e| e.to_string())
+}
+
+/// `pruner::find_height_after_window_slow` (binary search only).
+pub async fn find_height_after_window_slow<S>(
+    store: &S,
+    stored_headers: &BlockRanges,
+    cutoff: &Time,
+    cache: &mut WindowSearchCache,
+) -> Result<Option<u64>, String>
+where
+    S: Store,
+{
+    super::find_height_after_window_slow(store, stored_headers, cutoff, &mut cache.0)
+        .await
+        .map_err(|e| e.to_string())
+}
